@@ -33,6 +33,7 @@ EXPLANATION = (
 EXPLANATION += (' R-C13-4: the acquire helper gives placeholders exactly to the level names that are None (identity test, not truthiness), the release helper resets exactly the placeholders, and where an aligned pair is re-ordered both results are re-ordered to the canonical level order.')
 EXPLANATION += (" R-C13-5: the index cache gives every level its own range of integer codes (position in the level's key table plus a cumulative per-level offset) and the decoding subtracts exactly that offset; bare positions would let the re-coded indices of operands with different level names or orders compare equal, in which case align() returns them un-aligned.")
 EXPLANATION += (" R-C13-5 also requires every path of a code helper to look the keys up in the level's key table (no positional shortcut). R-C13-6: the frame-to-frame path returns fresh objects: its return summary (effect analysis) contains no alias or view of an operand.")
+EXPLANATION += (" R-C13-8: array data is attached to the object's index positionally; pd.Series(<freshly built Series>, index=...) re-keys by label and is a violation (built-in positive example).")
 EXPLANATION += (" R-C13-7: the object is aligned directly with the caller's parameter only where an isinstance test excludes the combination DataFrame object / Series parameter (which is otherwise wrapped into a one-column frame).")
 ASSUMPTIONS = [
     "pandas DataFrame.align(Series, axis=0) may return the frame with its previous index when the joined index requires no row "
@@ -293,6 +294,7 @@ def run(ctx):
     ctx.attempt(lambda c: _r5(c, cache))
     ctx.attempt(lambda c: _r6(c, eff))
     ctx.attempt(_r7)
+    ctx.attempt(_r8)
 
 
 def _kind_tests(test):
@@ -335,6 +337,60 @@ def _mixed_align_sites(fn_node, operand_names):
             n = par
         out.append((c, guarded))
     return out
+
+
+def d_after(n_, before, c, name):
+    """another definition of `name` between the index-less construction and the use (the use then sees that one)"""
+    return bool(before) and any(isinstance(t_, ast.Name) and t_.id == name for t_ in n_.targets) and \
+        before[-1].lineno < n_.lineno < c.lineno
+
+
+def _relabelled_series(fn_node):
+    """pd.Series(X, index=I) / pd.DataFrame(X, index=I) where X is itself a pandas object built in the function without an index
+    (pd.Series(...) of array data): pandas then looks the rows of X up by the labels of I instead of attaching I positionally"""
+    fresh = {}
+    for n_ in ast.walk(fn_node):
+        if isinstance(n_, ast.Assign) and len(n_.targets) == 1 and isinstance(n_.targets[0], ast.Name):
+            v_ = n_.value
+            if isinstance(v_, ast.Call) and call_name(v_) in ("pd.Series", "pd.DataFrame", "pandas.Series", "pandas.DataFrame") and \
+                    not any(k_.arg == "index" for k_ in v_.keywords) and len(v_.args) < 2:
+                fresh.setdefault(n_.targets[0].id, []).append(n_)
+    out = []
+    for c in [x_ for x_ in ast.walk(fn_node) if isinstance(x_, ast.Call)]:
+        if call_name(c) in ("pd.Series", "pd.DataFrame", "pandas.Series", "pandas.DataFrame") and c.args and \
+                any(k_.arg == "index" for k_ in c.keywords):
+            a0 = c.args[0]
+            if isinstance(a0, ast.Name) and a0.id in fresh:
+                before = [d_ for d_ in fresh[a0.id] if d_.lineno < c.lineno]
+                later_defs = [n_ for n_ in ast.walk(fn_node) if isinstance(n_, ast.Assign) and d_after(n_, before, c, a0.id)]
+                if before and not later_defs:
+                    out.append((c, before[-1]))
+            elif isinstance(a0, ast.Call) and call_name(a0) in ("pd.Series", "pd.DataFrame") and \
+                    not any(k_.arg == "index" for k_ in a0.keywords):
+                out.append((c, a0))
+    return out
+
+
+def _r8(ctx):
+    """R-C13-8: an array parameter is attached to the object's index by position.  `pd.Series(values, index=I)` does that for an
+    array; if `values` is itself a Series (with the RangeIndex it got when it was built) pandas re-indexes it by LABEL: rows
+    whose key is not in 0..n-1 become NaN, integer keys pick the wrong element."""
+    prog = ctx.prog
+    ctx.rule("R-C13-8", floor=1, what="array data is attached to the object's index positionally, never through a freshly built Series")
+    ex = ast.parse("def f(self, p):\n    p = pd.Series(np.broadcast_to(p, 3))\n    q = np.broadcast_to(p, 3)\n"
+                   "    return pd.Series(p, index=self._obj.index), pd.Series(q, index=self._obj.index)\n").body[0]
+    if len(_relabelled_series(ex)) != 1:
+        raise AnalysisError("R-C13-8 built-in example not matched")
+    n = 0
+    for key, fi in sorted(prog.functions.items()):
+        if fi.module.name != MOD or fi.parent is not None:
+            continue
+        n += 1
+        for c, src in _relabelled_series(fi.node):
+            ctx.violated(fi, c, "%s builds %s from a pandas object that was created without an index (%s): the rows are looked up by "
+                         "the labels of the new index instead of being attached in order - keys outside 0..n-1 give NaN, integer keys "
+                         "the wrong element" % (fi.name, norm_text(c)[:70], norm_text(src)[:60]), text="relabelled " + fi.name)
+    ctx.holds("pylife.core.broadcaster", None, "no Series/DataFrame is built from an index-less pandas object with a new index (%d functions)" % n)
 
 
 def _r7(ctx):
